@@ -50,7 +50,8 @@ def run(ctx):
         events += vlib.read_ndjson(f)
     vlib.write_ndjson(allf, events)
     v, bads = ctx.tlc_trace("modelsel/ModelSelTrace.tla", "modelsel/ModelSelTrace.cfg", allf,
-                            must_hit=("KFold", "KFoldVia", "KFoldShuffled", "KFoldPanic", "TTS", "TTSPanic", "CVStartCustom", "Fit", "Predict", "Score", "CVDone"))
+                            must_hit=("KFold", "KFoldVia", "KFoldShuffled", "KFoldPanic", "TTS", "TTSPanic", "CVStartCustom", "Fit", "Predict", "Score", "CVDone",
+                                      "EstimatorFailed", "CVDoneAfterFailure"))
     if v.get("live"):
         raise vlib.ToolError("trace ended inside a cross-validation run")
     ctx.evaluations = len(events)
